@@ -84,10 +84,12 @@ inductive Form
   | vecIt                -- std::vector<U>::iterator (contiguous iterator)
   | listIt               -- std::list<U>::iterator
   | moveIt               -- std::move_iterator<U*>
+  | revIt                -- std::reverse_iterator<std::vector<U>::iterator>: random access, NOT contiguous
+  | deqIt                -- std::deque<U>::iterator: random access, NOT contiguous
   deriving DecidableEq, Repr, Inhabited
 
 def Form.isRange : Form → Bool
-  | .ptr | .vecIt | .listIt | .moveIt => false
+  | .ptr | .vecIt | .listIt | .moveIt | .revIt | .deqIt => false
   | _ => true
 /-- `HAS_DATA_AND_SIZE<std::decay_t<Range>>`: a C array decays to a pointer, which has no `std::data` -/
 def Form.hasDataAndSize : Form → Bool
